@@ -5,7 +5,7 @@ RULE = ("timestamp pairs around the 2^32 wrap, backward steps 1..10^6, ticks 0..
         "tick counts aimed at frequencies straddling min/max scale and every rounding-bucket edge (with fractional parts), all packet "
         "types incl. invalid ones and fragments (a fifth of them through ONE reused parsed Packet object whose fragment bit / type were updated since its last use), threshold variants; clock via replaced time.time_ns; non-trivial = model gives a "
         "verdict or tps=-1; raw_frequency compared bit-for-bit with the correctly rounded num/den")
-GEN_TIE = ['uptime']     # the anchored decision functions are also TRANSLATED from /repo's source on every run and proved equal to the model
+GEN_TIE = ['uptime']     # round_frequency, the packet gate, the whole body of fingerprint_uptime and Uptime.__post_init__ are also TRANSLATED from /repo's source on every run and proved equal to the model (floats as exact rationals)
 ASSUMPTIONS = ["thresholds are sane: 0 < min scale <= max scale, min wait >= 1, grace > 0",
                "float tie: ticks*1000.0/ms is the correctly rounded quotient of exactly representable integers; thresholds used are "
                "rationals whose distance to any reachable num/ms (ms <= 10^6) exceeds float rounding error unless equal"]
